@@ -20,7 +20,7 @@
 
    Error classes: tool errors by their code (>= 100), recovered panic = 4, everything else
    the node reports (unknown tool, bad role, no call, empty stream) = one class 0. *)
-From Eino Require Import Base.Util Model.Tools.
+From Eino Require Import Base.Util Model.Concat Model.ConcatMsg Model.Tools Model.ToolsMsg.
 Local Open Scope string_scope.
 
 (* b_bare: the output is the chunks as they are (no "<tag><name>:" prefix), so that a tool can
@@ -35,39 +35,28 @@ Definition prefix_first (name : string) (cs : list string) : list string :=
 Definition out_chunks (b : behav) (tag name : string) : list string :=
   if b_bare b then b_chunks b else prefix_first (tag ++ name) (b_chunks b).
 
-(* [sees name] = the option tag the tool of that name acts on ("" for a tool that ignores its options) *)
-Definition tbl_inv (tbl : list (string * behav)) (sees : string -> string) (name args : string) : tres :=
+(* [tag] = the option tag the tool acts on ("" for a tool that ignores its options) *)
+Definition tbl_inv (tbl : list (string * behav)) (tag : string) (name args : string) : tres :=
   match alist_get args tbl with
   | None => TErr 7
   | Some b =>
       if b_panic b then TPanic
       else if N.eqb (b_fail b) 0 then
              TOk (if b_bare b then concat_strings (b_chunks b)
-                  else sees name ++ name ++ ":" ++ concat_strings (b_chunks b))
+                  else tag ++ name ++ ":" ++ concat_strings (b_chunks b))
            else TErr (b_fail b)
   end.
 
-Definition tbl_str (tbl : list (string * behav)) (sees : string -> string) (name args : string) : sres :=
+Definition tbl_str (tbl : list (string * behav)) (tag : string) (name args : string) : sres :=
   match alist_get args tbl with
   | None => SErr 7
   | Some b =>
       if b_panic b then SPanic
-      else if N.eqb (b_fail b) 0 then SOk (out_chunks b (sees name) name) None
+      else if N.eqb (b_fail b) 0 then SOk (out_chunks b tag name) None
            else match b_failat b with
                 | None => SErr (b_fail b)
-                | Some k => SOk (firstn k (out_chunks b (sees name) name)) (Some (b_fail b))
+                | Some k => SOk (firstn k (out_chunks b tag name)) (Some (b_fail b))
                 end
-  end.
-
-(* convTools: indexes[name] = idx, a later tool of the same name overwrites an earlier one *)
-Fixpoint tool_lookup {A} (tools : list (string * A)) (name : string) : option A :=
-  match tools with
-  | [] => None
-  | (n, k) :: r =>
-      match tool_lookup r name with
-      | Some k' => Some k'
-      | None => if String.eqb n name then Some k else None
-      end
   end.
 
 Definition handler_of (h : hcfg) : option (string -> string -> tres) :=
@@ -82,7 +71,9 @@ Definition handler_of (h : hcfg) : option (string -> string -> tres) :=
 Inductive omsg : Type := M (content id : string) | NoMsg.          (* a tool message / a nil entry *)
 Inductive ochunk : Type := Ch (pos : nat) (content id : string).     (* a sparse chunk: position set, message *)
 Inductive xcall : Type := X (name args id tag : string).            (* one tool execution; id as seen in its ctx; option tag it was handed *)
-Inductive tdef : Type := T (name : string) (k : tkind) (sees : bool). (* sees: the tool looks at its options *)
+(* a tool given to NewToolNode / WithToolList: k = None: it implements neither run interface;
+   sees: it looks at its options; info_ok: its Info call succeeds *)
+Inductive tdef : Type := T (name : string) (k : option tkind) (sees : bool) (info_ok : bool).
 Inductive brow : Type := B (args : string) (b : behav).
 
 Inductive host : Type := HStandalone | HGraph.
@@ -132,17 +123,27 @@ Definition xcall_eqb (a b : xcall) : bool :=
   match a, b with X n a i t, X n' a' i' t' => String.eqb n n' && String.eqb a a' && String.eqb i i' && String.eqb t t' end.
 Definition omsg_of (m : tmsg) : omsg := M (fst m) (snd m).
 Definition omsg_of_opt (m : option tmsg) : omsg := match m with Some m => omsg_of m | None => NoMsg end.
-Definition tools_of (l : list tdef) : list (string * (tkind * bool)) := map (fun t => match t with T n k s => (n, (k, s)) end) l.
+(* a message of C14's model as the harness prints a schema.Message *)
+Definition omsg_of_msg (m : option msg) : omsg :=
+  match m with
+  | Some m => M (if String.eqb (m_role m) "tool" then m_content m else "<role " ++ m_role m ++ ">" ++ m_content m) (m_tcid m)
+  | None => NoMsg
+  end.
+Definition k_tbl (c : ccase) : list (string * behav) := map (fun r => match r with B a b => (a, b) end) (k_rows c).
 (* the option value handed to the tools: the concatenated tags *)
 Definition k_tag (c : ccase) : string := concat_strings (k_topts c).
-(* convTools of a tool list as the model's tool set; the tools are functions of the tag they are handed *)
-Definition toolset_of (tbl : list (string * behav)) (l : list tdef) : toolset string :=
-  let tl := tools_of l in
-  let sees := fun (tag name : string) => match tool_lookup tl name with Some (_, true) => tag | _ => "" end in
-  mkTS (fun name => option_map fst (tool_lookup tl name))
-       (fun tag => tbl_inv tbl (sees tag))
-       (fun tag => tbl_str tbl (sees tag)).
-Definition k_tbl (c : ccase) : list (string * behav) := map (fun r => match r with B a b => (a, b) end) (k_rows c).
+(* the tool as the model's convTools sees it; its implementation is the behaviour table, keyed
+   by the argument string, on the tag it acts on *)
+Definition decl_of (tbl : list (string * behav)) (t : tdef) : tooldecl string :=
+  match t with
+  | T n k sees ok =>
+      mkTD ok n k (mkTI (fun tag => tbl_inv tbl (if sees then tag else "") n)
+                        (fun tag => tbl_str tbl (if sees then tag else "") n))
+  end.
+Definition decls_of (tbl : list (string * behav)) (l : list tdef) : list (tooldecl string) := map (decl_of tbl) l.
+(* name -> (kind, sees) in the list in force, resolved as convTools' index does *)
+Definition def_lookup (l : list tdef) (name : string) : option (option tkind * bool) :=
+  index_lookup (map (fun t => match t with T n k s _ => (n, (k, s)) end) l) name.
 
 Fixpoint remove_one {A} (eqb : A -> A -> bool) (x : A) (l : list A) : option (list A) :=
   match l with
@@ -158,26 +159,35 @@ Fixpoint multiset_eqb {A} (eqb : A -> A -> bool) (a b : list A) : bool :=
 (* ---- per-run comparison -------------------------------------------------------------- *)
 Section Case.
   Variable c : ccase.
-  Let cfg := toolset_of (k_tbl c) (k_tdefs c).
   Let hd := handler_of (k_handler c).
-  Let co := mkCO (option_map (toolset_of (k_tbl c)) (k_call_tdefs c)) (k_tag c).
-  Let m_invoke := tools_invoke_with cfg hd co.
-  Let m_stream := tools_stream_open_with cfg hd co.
+  Let cfg := decls_of (k_tbl c) (k_tdefs c).
+  Let cll := option_map (decls_of (k_tbl c)) (k_call_tdefs c).
+  Let m_invoke := node_invoke hd cfg cll (k_tag c).
+  Let m_stream := node_stream_open hd cfg cll (k_tag c).
+  Let eff_defs := match k_call_tdefs c with Some l => l | None => k_tdefs c end.
 
   Definition host_wrap {A} (h : host) (r : res A) : res A :=
     match h with HStandalone => r | HGraph => in_graph r end.
 
   (* the tag a call's execution sees: the handler takes no options *)
   Definition seen_tag (name : string) : string :=
-    match tool_lookup (tools_of (match k_call_tdefs c with Some l => l | None => k_tdefs c end)) name with
+    match def_lookup eff_defs name with
     | Some (_, true) => k_tag c
     | _ => ""
+    end.
+
+  (* the harness's tools record an execution when their body is entered: not for arguments they
+     cannot parse (= not in the behaviour table); the unknown-tool handler takes any input *)
+  Definition enters_body (cl : call) : bool :=
+    match def_lookup eff_defs (c_name cl) with
+    | Some _ => match alist_get (c_args cl) (k_tbl c) with Some _ => true | None => false end
+    | None => true
     end.
 
   Definition exec_ok (ex : list xcall) : bool :=
     multiset_eqb xcall_eqb ex
       (map (fun cl => X (c_name cl) (c_args cl) (c_id cl) (seen_tag (c_name cl)))
-           (tools_executed_with cfg hd co (k_role_ok c) (k_calls c))).
+           (filter enters_body (node_executed hd cfg cll (k_tag c) (k_role_ok c) (k_calls c)))).
 
   Definition invoke_ok (h : host) (pi : list nat) (o : iobs) : bool :=
     match host_wrap h (m_invoke pi (k_role_ok c) (k_calls c)), o with
@@ -210,6 +220,12 @@ Section Case.
            && match concat_pos ids em', cc with
               | Ok l, CMsgs l' => list_eqb omsg_eqb (map omsg_of_opt l) l'
               | Err e, CErr e' => N.eqb (ecls e) e'
+              | _, _ => false
+              end
+           (* ... and C14's model of the framework's concatenation, run on the sparse lists *)
+           && match @framework_concat tools_no_user ids em', cc with
+              | Ok l, CMsgs l' => list_eqb omsg_eqb (map omsg_of_msg l) l'
+              | Err _, CErr e' => N.eqb 0 e'
               | _, _ => false
               end
        | Some e =>
